@@ -69,6 +69,11 @@ def main():
         out.append(f"| {rec['file']}:{rec['line']} `{rec['func']}` | {rec['kind'].replace('|', chr(92) + '|')} in `{text[:90]}` | {entry['class']} | "
                    f"{entry.get('reason', '')}{(' - fixed by: ' + entry['fixed_by']) if entry.get('fixed_by') else ''} |")
     out += ["", "Classes: " + ", ".join(f"{k}: {v}" for k, v in sorted(counts.items())), ""]
+    if cls.get("closed"):
+        out += ["## Blind spots the campaigns found, and how they were closed", ""]
+        for item in cls["closed"]:
+            out.append(f"- {item['mutant']}: {item['was']}. {item['closed_by']}.")
+        out.append("")
     if machinery:
         out += ["## Runs that ended in a machinery failure", ""]
         for rec in machinery:
